@@ -87,6 +87,18 @@ type elemView struct {
 	ptr                     reflect.Value
 	iei, ln, octet, buffer  reflect.Value
 	octetIsArray, hasBuffer bool
+	lastBuf                 []byte // the Buffer the harness installed last (setData)
+}
+
+// freshAfterSetLen reports whether the element's current Buffer lies outside the
+// memory of the Buffer installed before the setter ran.
+func (e *elemView) freshAfterSetLen(_ *elemState) bool {
+	if !e.hasBuffer || cap(e.lastBuf) == 0 || e.buffer.Cap() == 0 {
+		return true
+	}
+	olo, ohi := sliceRange(reflect.ValueOf(e.lastBuf))
+	nlo, nhi := sliceRange(e.buffer)
+	return nhi <= olo || ohi <= nlo
 }
 
 func newElemView(p interface{}) *elemView {
@@ -143,6 +155,7 @@ func (e *elemView) setData(d []byte) {
 		b := make([]byte, len(d))
 		copy(b, d)
 		e.buffer.SetBytes(b)
+		e.lastBuf = b
 	case e.octet.IsValid() && e.octetIsArray:
 		for i := 0; i < e.octet.Len(); i++ {
 			e.octet.Index(i).SetUint(uint64(d[i]))
@@ -376,6 +389,11 @@ func c09Field(c *core.Ctx, k *core.Case) {
 						ignoreData = true
 						if len(post.data) != int(want.ln) {
 							fail("setlen-buffer-size", fmt.Sprintf("SetLen(%d) left a buffer of %d octets", v, len(post.data)))
+						}
+						// ... of FRESH storage: a value copy of the element taken before the call (or
+						// whoever else holds the old Buffer) must not see what is written afterwards
+						if !ev.freshAfterSetLen(prior) {
+							fail("setlen-reuses-storage", fmt.Sprintf("SetLen(%d) on an element holding %d octets kept the old storage: writing the new contents changes a value copy taken before", v, len(prior.data)))
 						}
 					}
 				default:
